@@ -74,3 +74,10 @@ pub mod c19 {
     include!(concat!(env!("OUT_DIR"), "/c19_gen.rs"));
     pub const RECORD: &str = include_str!(concat!(env!("OUT_DIR"), "/c19_record.json"));
 }
+
+pub mod c08types;
+#[allow(clippy::all)]
+pub mod c08 {
+    include!(concat!(env!("OUT_DIR"), "/c08_gen.rs"));
+    pub const RECORD: &str = include_str!(concat!(env!("OUT_DIR"), "/c08_record.json"));
+}
